@@ -20,8 +20,8 @@ func MapGMonthDay(lexicalForm string) (GMonthDay, error) {
 	lexicalForm = xsdutil.WhiteSpaceCollapse(lexicalForm)
 
 	for _, layout := range []string{
-		"01-02",
-		"01-02Z07:00",
+		"--01-02",
+		"--01-02Z07:00",
 	} {
 		parsed, err := time.Parse(layout, lexicalForm)
 		if err == nil {
